@@ -128,7 +128,7 @@ def check_case(rec, case):
     # oracle self-check on the live workload: reference A (graph) vs reference B (subset construction)
     selfcheck(rec, fa.language_upto_naive(R, min(n, 4)) == fa.language_upto(R, min(n, 4)), R)
     if kind == 'dfa':
-        o = call(adapt.build_dfa, R)
+        o = call(adapt.build_dfa, R, scramble=case.get('scr'))
         if not o.ok:
             rec.inconc('cannot build DFA: %r' % (o.exc,))
             return
@@ -139,7 +139,7 @@ def check_case(rec, case):
                 report_failure(rec, o, 'dfa_accepts_word', word=w)
                 break
         return
-    o = call(adapt.build_nfa, R, case['eps'], case['container'])
+    o = call(adapt.build_nfa, R, case['eps'], case['container'], scramble=case.get('scr'))
     if not o.ok:
         rec.inconc('cannot build NFA: %r' % (o.exc,))
         return
@@ -226,7 +226,7 @@ def gen_cases(rec, rng, tier):
         yield {'kind': 'dfa', 'cls': 'enum_dfa', 'ref': R, 'n': nw}
     conts = adapt.NFA_KINDS
     for i, R in enumerate(common.shard_slice(fag.enum_nfas(2, 2), rec)):
-        yield {'kind': 'nfa', 'cls': 'enum_nfa', 'ref': R, 'n': 4, 'eps': ('', '_', 'ε', 'e')[i % 4], 'container': conts[(i // 4) % 3], 'sets': [list(R[0])]}
+        yield {'kind': 'nfa', 'cls': 'enum_nfa', 'ref': R, 'n': 4, 'eps': ('', '_', 'ε', 'e')[i % 4], 'container': conts[(i // 4) % 3], 'sets': [list(R[0])] + [[q] for q in R[0]] + [[]]}
     if thorough:
         # sampled slices of the next enumeration levels
         for i, R in enumerate(fag.enum_nfas(3, 1, 1)):
@@ -272,6 +272,9 @@ def gen_cases(rec, rng, tier):
 
 def _sets(rng, R):
     Q = list(R[0])
+    if len(Q) <= 5:
+        import itertools
+        return [list(c) for r in range(len(Q) + 1) for c in itertools.combinations(Q, r)]
     out = [[], list(Q)]
     for _ in range(3):
         out.append(sorted(rng.sample(Q, rng.randint(1, len(Q)))))
@@ -285,4 +288,4 @@ def run(rec, rng, tier):
         check_case(rec, rc)
         return
     for case in gen_cases(rec, rng, tier):
-        check_case(rec, case)
+        check_case(rec, common.with_scramble(case))
